@@ -34,6 +34,9 @@ package watchers
 // it had paused; pauses and resumes alternate (ghost counters).
 //@ func WatchDiskSpace
 //@   property C18
+//@   local stopSeen int = 0
+//@   after selrecv(done(diskWatcherCtx)): stopSeen = 1
+//@   loop for invariant [returns-on-stop] @C03 stopSeen == 0 // C03: a stop request returns within bounded time (once the goroutine has seen its context cancelled it returns: it never comes back to the head of its loop)
 //@   attr assume-pre CheckDiskUsage
 //@   local nPause int = 0
 //@   local nResume int = 0
